@@ -433,11 +433,18 @@ class Program:
         if mod is None:
             return False
         for n in ast.walk(mod.tree):
-            if isinstance(n, ast.FunctionDef) and n.name == fn and len(n.args.args) == 1 and not n.decorator_list:
+            # `cache = lru_cache(maxsize=None)` / `cache = functools.cache`: the stdlib memoiser bound to a package name
+            if isinstance(n, ast.Assign) and len(n.targets) == 1 and isinstance(n.targets[0], ast.Name) and n.targets[0].id == fn:
+                v = n.value
+                if isinstance(v, ast.Call) and self.resolve_expr_name(mod, v.func) == "functools.lru_cache" and not v.args:
+                    return True
+                if isinstance(v, (ast.Name, ast.Attribute)) and self.resolve_expr_name(mod, v) in MEMO_DECORATORS:
+                    return True
+            if isinstance(n, ast.FunctionDef) and n.name == fn and len(n.args.posonlyargs + n.args.args) == 1 and not n.decorator_list:
                 body = [st for st in n.body if not (isinstance(st, ast.Expr) and isinstance(st.value, ast.Constant))]
                 if len(body) == 1 and isinstance(body[0], ast.Return) and isinstance(body[0].value, ast.Call):
                     c = body[0].value
-                    arg_ok = len(c.args) == 1 and isinstance(c.args[0], ast.Name) and c.args[0].id == n.args.args[0].arg and not c.keywords
+                    arg_ok = len(c.args) == 1 and isinstance(c.args[0], ast.Name) and c.args[0].id == (n.args.posonlyargs + n.args.args)[0].arg and not c.keywords
                     inner = c.func.func if isinstance(c.func, ast.Call) else c.func
                     if arg_ok and self.resolve_expr_name(mod, inner) in MEMO_DECORATORS:
                         return True
